@@ -166,6 +166,16 @@ def clause_index(prog, rep, sch):
     uniq = sch.tables["groups"]["unique"]
     rep.check(["nostr_group_id"] in uniq, "routing-index", "sqlite/unique-nostr-group-id", "groups.nostr_group_id has a unique index",
               "groups.nostr_group_id is not unique: two groups could claim the same routing id")
+    # ... and a save that collides with *another* group's routing id must fail, not overwrite that group: the groups upsert is keyed
+    # by the primary key only (the memory sibling refuses the collision explicitly)
+    ups = [s_ for s_ in sqlmod.collect(prog) if s_.stmt.kind == "INSERT" and s_.stmt.table == "groups" and (s_.stmt.conflict_cols is not None)
+           and not (s_.fn.root and "snapshot" in s_.fn.root)]
+    rep.floor("routing-index", "groups upsert (save_group)", len(ups), 1)
+    for s_ in ups:
+        rep.check(not s_.stmt.conflict_any and s_.stmt.conflict_cols == sch.pk("groups"), "routing-index", "sqlite/upsert-keyed-by-primary-key",
+                  "save_group replaces only the row with the same mls_group_id; a foreign nostr_group_id collision is a constraint error",
+                  "the groups upsert (conflict target %s) also fires on a collision with another group's nostr_group_id: a record carrying "
+                  "a foreign routing id overwrites that group" % ("any unique index" if s_.stmt.conflict_any else s_.stmt.conflict_cols), s_.loc())
     # memory: save_group drops the stale secondary-index entry when the id changes and refuses a foreign collision
     fs = prog.find(adt="MdkMemoryStorage", name="save_group", trait="GroupStorage")
     rep.floor("routing-index", "<MdkMemoryStorage as GroupStorage>::save_group", len(fs), 1)
